@@ -76,8 +76,13 @@ Definition flag_used (arms : list arm) (f : str) : bool :=
 Definition flags_covered (ct : ctx_table) (except : list str) : bool :=
   forallb (fun f => mem f except || flag_used (t_arms ct) f) (t_interests ct).
 
+(* the guard of a table handed over after the loop (`!table.is_empty() || (interests.f1 && interests.f2)`) consults
+   interest flags of the context *)
+Definition whole_ok (ct : ctx_table) : bool :=
+  forallb (fun sw => forallb (fun f => mem f (t_interests ct)) (snd sw)) (t_whole ct).
+
 Definition ctx_ok (ct : ctx_table) (except : list str) : bool :=
-  arms_ok (t_interests ct) [] (t_arms ct) && flags_covered ct except.
+  arms_ok (t_interests ct) [] (t_arms ct) && flags_covered ct except && whole_ok ct.
 
 (* Code arms only in the method table, Record arms only in the class table *)
 Definition no_action (p : action -> bool) (ct : ctx_table) : bool := forallb (fun a => negb (p (a_act a))) (t_arms ct).
